@@ -101,6 +101,12 @@ type PKI struct {
 	ServerUntrusted           KeyPair // signed by the foreign CA, SANs localhost + 127.0.0.1
 	ServerExpired             KeyPair // trusted, matching, expired
 	ClientGood, ClientForeign KeyPair
+	// ShadowCA has the same subject as CA but another key: a client whose certificate it signed is "signed by a
+	// foreign CA" too, but - unlike ClientForeign, which a Go TLS client withholds because its issuer is not among
+	// the acceptable CAs the server names - it is really presented to a server that asks for a certificate.
+	ShadowCA      *CA
+	ClientShadow  KeyPair
+	ClientExpired KeyPair // signed by CA, expired
 }
 
 var (
@@ -120,6 +126,9 @@ func GetPKI() *PKI {
 		p.ServerExpired = p.CA.Issue("localhost", names, ips, false, true)
 		p.ClientGood = p.CA.Issue("client", nil, nil, true, false)
 		p.ClientForeign = p.ForeignCA.Issue("client", nil, nil, true, false)
+		p.ShadowCA = NewCA("verif-ca")
+		p.ClientShadow = p.ShadowCA.Issue("client", nil, nil, true, false)
+		p.ClientExpired = p.CA.Issue("client", nil, nil, true, true)
 		pki = p
 	})
 	return pki
